@@ -82,8 +82,9 @@ type RawPeer struct {
 	CloseDelay time.Duration
 	OnFrame    func(f wire.Frame)
 
-	rng *fw.Rand
-	wmu sync.Mutex
+	rng   *fw.Rand
+	rngMu sync.Mutex
+	wmu   sync.Mutex
 
 	mu      sync.Mutex
 	cond    *sync.Cond
@@ -158,12 +159,7 @@ func (rp *RawPeer) Start() {
 func (rp *RawPeer) Send(f wire.Frame) error {
 	rp.wmu.Lock()
 	defer rp.wmu.Unlock()
-	if rp.IsClient && !f.Masked {
-		var k [4]byte
-		v := rp.rng.U64()
-		k[0], k[1], k[2], k[3] = byte(v), byte(v>>8), byte(v>>16), byte(v>>24)
-		f = f.WithMask(k)
-	}
+	f = rp.Mask(f)
 	_, err := rp.End.Write(f.Bytes())
 	return err
 }
@@ -172,11 +168,26 @@ func (rp *RawPeer) Send(f wire.Frame) error {
 func (rp *RawPeer) Mask(f wire.Frame) wire.Frame {
 	if rp.IsClient && !f.Masked {
 		var k [4]byte
+		rp.rngMu.Lock()
 		v := rp.rng.U64()
+		rp.rngMu.Unlock()
 		k[0], k[1], k[2], k[3] = byte(v), byte(v>>8), byte(v>>16), byte(v>>24)
 		return f.WithMask(k)
 	}
 	return f
+}
+
+// SendSplit writes one frame in two pieces with a pause in between; other senders of this peer (the pong and
+// close echo) are held off meanwhile so that the frame stays contiguous on the wire.
+func (rp *RawPeer) SendSplit(b []byte, k int, pause time.Duration) error {
+	rp.wmu.Lock()
+	defer rp.wmu.Unlock()
+	if _, err := rp.End.Write(b[:k]); err != nil {
+		return err
+	}
+	time.Sleep(pause)
+	_, err := rp.End.Write(b[k:])
+	return err
 }
 
 func (rp *RawPeer) SendBytes(b []byte) error {
